@@ -43,7 +43,7 @@ func (c17) Meta() fw.Meta {
 			"the race detector sees only races that happen in the executed schedules; in-flight overlap is measured and a trial without overlap does not count as non-trivial",
 			"requests carry their clock (now) so sequential and concurrent executions are comparable bit for bit",
 		},
-		Obligations: []string{"handle_trials", "handle_concurrent_calls", "sum_trials", "sum_concurrent_calls", "sum_out_of_order_forced", "server_trials", "server_concurrent_requests", "endpoint_view", "endpoint_view_raw", "endpoint_sum", "endpoint_items", "endpoint_files", "cli_race_runs", "max_in_flight_ge2", "requests_differing_only_in_clock", "sum_error_path_trials", "trials_with_never_written_archives", "served_file_locked_over_1s", "requests_after_a_failed_request"},
+		Obligations: []string{"handle_trials", "handle_concurrent_calls", "sum_trials", "sum_concurrent_calls", "sum_out_of_order_forced", "server_trials", "server_concurrent_requests", "endpoint_view", "endpoint_view_raw", "endpoint_sum", "endpoint_items", "endpoint_files", "cli_race_runs", "max_in_flight_ge2", "requests_differing_only_in_clock", "sum_error_path_trials", "trials_with_never_written_archives", "served_file_locked_over_1s", "requests_after_a_failed_request", "trials_with_90_requests_in_their_handlers"},
 		Race:        true,
 		Workers:     6,
 	}
@@ -649,6 +649,65 @@ func c17Server(c *fw.Ctx) {
 	if len(bads) > 0 {
 		c.Violationf("concurrent-response-differs", fw.J{"clients": P, "problems": bads[:minI(len(bads), 4)], "layout": l},
 			"with %d parallel clients a response differs from the same request served alone: %s", P, bads[0])
+	}
+	// many more clients than any plausible pool or limit: 90 requests for one file that a writer holds for a second and
+	// a half (so all of them are in their handlers at once), plus one request per other endpoint meanwhile; each is
+	// answered with what it returns when executed alone
+	if !c.Violated() && c.Index%2 == 0 {
+		f := files[0]
+		busy := baseURL + fmt.Sprintf("/view?file=%s&retention=-1&from=%s&until=%s&now=%s", url.QueryEscape(f), ts(now-l.MaxRet()), ts(now), ts(now))
+		others := []string{
+			baseURL + fmt.Sprintf("/view-raw?file=%s&retention=-1", url.QueryEscape(files[len(files)-1])),
+			baseURL + "/items?pattern=" + url.QueryEscape("*"),
+			baseURL + "/files?pattern=" + url.QueryEscape("*/*.wsp"),
+			baseURL + fmt.Sprintf("/sum?item=b&pattern=%s&retention=-1&from=%s&until=%s&now=%s", url.QueryEscape("*.wsp"), ts(now-l.MaxRet()), ts(now), ts(now)),
+		}
+		many := &http.Client{Timeout: 90 * time.Second, Transport: &http.Transport{MaxIdleConnsPerHost: 128}}
+		refCode, refBody, _, rerr := httpGet(many, busy)
+		type rr struct {
+			code int
+			body []byte
+		}
+		oref := make([]rr, len(others))
+		for i, u := range others {
+			cd, b, _, _ := httpGet(many, u)
+			oref[i] = rr{cd, b}
+		}
+		if h, err := wt.Open(filepath.Join(base, f)); err == nil && rerr == nil {
+			var wg2 sync.WaitGroup
+			var mu2 sync.Mutex
+			var problems []string
+			for k := 0; k < 90; k++ {
+				wg2.Add(1)
+				go func() {
+					defer wg2.Done()
+					cd, b, _, err := httpGet(many, busy)
+					if err != nil || cd != refCode || !bytes.Equal(b, refBody) {
+						mu2.Lock()
+						problems = append(problems, fmt.Sprintf("view of the held file: status %d err %v (alone: status %d)", cd, err, refCode))
+						mu2.Unlock()
+					}
+				}()
+			}
+			time.Sleep(400 * time.Millisecond)
+			for i, u := range others {
+				cd, b, _, err := httpGet(many, u)
+				if err != nil || cd != oref[i].code || !bytes.Equal(b, oref[i].body) {
+					mu2.Lock()
+					problems = append(problems, fmt.Sprintf("%s while 90 requests wait for a held file: status %d err %v (alone: status %d)", u[len(baseURL):], cd, err, oref[i].code))
+					mu2.Unlock()
+				}
+			}
+			time.Sleep(time.Duration(600+r.Intn(500)) * time.Millisecond)
+			h.Close()
+			wg2.Wait()
+			c.Count("trials_with_90_requests_in_their_handlers", 1)
+			if len(problems) > 0 {
+				c.Violationf("concurrent-response-differs", fw.J{"problems": problems[:minI(len(problems), 4)], "how_many": len(problems)},
+					"with 90 requests in flight for a file held by a writer, %d responses differ from the same requests served alone: %s", len(problems), problems[0])
+			}
+		}
+		many.CloseIdleConnections()
 	}
 	// a request that fails after its file was opened (an archive id the file does not have, from > until) must not keep
 	// the file: the next request for the same file is answered, with what it returns when executed alone
